@@ -248,7 +248,7 @@ func (l *FSLayout) DumpFor(r *core.Rand) *Dump {
 	for k, fi := range perm {
 		f := l.Frames[fi]
 		g := &d.Gs[k%ng]
-		name := "F"
+		name := []string{"F", "f", "(*T).Do", "(*t).do"}[k%4]
 		if f.Pkg == "main" {
 			name = "main"
 		}
